@@ -12,7 +12,9 @@ def main():
     ap.add_argument("prop")
     ap.add_argument("--tier", default=os.environ.get("VERIF_TIER", "quick"))
     ap.add_argument("--replay")
-    a = ap.parse_args()
+    a, rest = ap.parse_known_args()
+    if rest and a.prop != "selftest":
+        ap.error("unrecognized arguments: %s" % " ".join(rest))
     seed = int(os.environ.get("VERIF_SEED", "0") or 0)
     if a.prop == "selftest":
         import selftest
